@@ -21,7 +21,7 @@ INNER = "for anchor in anchors"
 UPD = "markAnchorNames.update((a.name for a in anchors if a.isMark))"
 # class invariant of NamedAnchor: the key is a function of the name (NamedAnchor.__init__ 'classified')
 KEY_OF_NAME = _ALL_ANCHORS.format(body=f"{_at('a', 'b')}.key == an_key({_at('a', 'b')}.name)")
-COMMON = dict(props=["C06"], params={"self": Ref("C06_Writer")}, returns=Dict(STR, STR))
+COMMON = dict(props=["C06"], params={"self": Ref("C06_Writer")}, returns=Dict(STR, STR), dict_key_positions=False)
 LOCALS = {"markAnchorNames": Set(STR), "anchorPairs": Dict(STR, STR)}
 _RT = Runtime(c06rt.stage_cases, lambda d: {"self": c06rt.writer_at(d, "context")}, call=lambda fn, a: fn(a["self"]))
 
